@@ -155,6 +155,8 @@ type icall struct {
 	fn   *ssa.Function
 	args []Value
 	kind frameKind
+	// posOverride: position reported for a deferred intrinsic call (the defer statement)
+	posOverride token.Pos
 }
 
 func (c *icall) ret(v Value) {
